@@ -60,6 +60,9 @@ func newC16World(r *rng.R) *c16World {
 	w := &c16World{key: macaroon.NewSigningKey(), ka: macaroon.NewEncryptionKey()}
 	store, _ := tp.NewMemoryStore(tp.PrefixMunger(c16UserPref), 1000)
 	w.tp = &tp.TP{Location: c16TPLoc, Key: w.ka, Store: store}
+	if r.P(1, 3) {
+		w.tp.Location = c16TPLoc + "/" // the same third party written with a trailing slash: URLs it hands out must not double it
+	}
 	for i := 0; i < 3; i++ {
 		m, _ := macaroon.New([]byte{byte(i)}, c16First, w.key)
 		m.Add(sym.Table[0]())
@@ -140,6 +143,11 @@ func (w *c16World) bodyObs(status int, body []byte, app bool) []int64 {
 			kind = 11
 			pu = jr.UserInteractive.PollURL
 			us = strings.TrimPrefix(jr.UserInteractive.UserURL, c16UserPref)
+		}
+		if want := c16TPLoc + tp.PollPathPrefix; !strings.HasPrefix(pu, want) || strings.Contains(pu[len("https://"):], "//") || len(pu) <= len(want) {
+			if w.cavFail == "" {
+				w.cavFail = fmt.Sprintf("poll URL %q handed out by the third party at %q is not %q + secret", pu, w.tp.Location, want)
+			}
 		}
 		w.pollSec = append(w.pollSec, pu[strings.LastIndex(pu, "/")+1:])
 		w.userSec = append(w.userSec, us)
@@ -394,8 +402,58 @@ func concurrentPollOracle(r *rng.R) string {
 	return ""
 }
 
+// outsideMiddlewareOracle: the helpers that need the flow of the current request fail cleanly when no middleware ran, and a
+// user URL without the configured prefix names no flow
+func outsideMiddlewareOracle(r *rng.R) (fail string) {
+	defer func() {
+		if p := recover(); p != nil {
+			fail = fmt.Sprintf("panic outside the middleware: %v", p)
+		}
+	}()
+	w := newC16World(r)
+	bare := httptest.NewRequest(http.MethodGet, c16TPLoc+"/anything", nil)
+	if cavs, err := tp.CaveatsFromRequest(bare); err == nil {
+		return fmt.Sprintf("CaveatsFromRequest on a request no middleware handled returns %v without error", cavs)
+	}
+	for name, f := range map[string]func(http.ResponseWriter, *http.Request){
+		"RespondDischarge":       func(rw http.ResponseWriter, rq *http.Request) { w.tp.RespondDischarge(rw, rq) },
+		"RespondPoll":            func(rw http.ResponseWriter, rq *http.Request) { w.tp.RespondPoll(rw, rq) },
+		"RespondUserInteractive": func(rw http.ResponseWriter, rq *http.Request) { w.tp.RespondUserInteractive(rw, rq) },
+		"RespondError":           func(rw http.ResponseWriter, rq *http.Request) { w.tp.RespondError(rw, rq, 403, "no") },
+	} {
+		rec := httptest.NewRecorder()
+		f(rec, bare)
+		var jr struct {
+			Discharge string `json:"discharge"`
+			PollURL   string `json:"poll_url"`
+		}
+		json.Unmarshal(rec.Body.Bytes(), &jr)
+		if jr.Discharge != "" || jr.PollURL != "" {
+			return name + " outside the middleware hands out a discharge / poll URL"
+		}
+		if name != "RespondError" && rec.Code != http.StatusInternalServerError {
+			return fmt.Sprintf("%s outside the middleware answers %d, not an internal error", name, rec.Code)
+		}
+	}
+	// a user-interactive flow exists; its secret presented under a path WITHOUT the configured prefix must not reach the application
+	w.do(c16Act{Kind: "AInit", T: "TValid", TI: 0, Mode: "MUser"}, r)
+	if len(w.userSec) == 1 && w.userSec[0] != "" {
+		ran := false
+		req := httptest.NewRequest(http.MethodGet, "https://tp.test/other/"+w.userSec[0], nil)
+		rec := httptest.NewRecorder()
+		w.tp.UserRequestMiddleware(http.HandlerFunc(func(http.ResponseWriter, *http.Request) { ran = true })).ServeHTTP(rec, req)
+		if ran {
+			return "a user secret presented under a path without the configured prefix reached the application"
+		}
+	}
+	return ""
+}
+
 func genC16(c *ctx) {
 	st := c.set.Stream("tp-hist", "Corr.RunT", "run_cases", 200)
+	if f := outsideMiddlewareOracle(c.r.Fork()); f != "" {
+		st.Add(&cs.Case{Coq: "(KTP [] [])", Class: "outside-middleware", Nontrivial: true, Desc: map[string]any{"what": "helpers called without a middleware; user URL without the prefix"}, OracleFail: f})
+	}
 	n := 400
 	if c.thorough {
 		n = 10000
